@@ -16,7 +16,7 @@ RULE = (
     "Non-trivial = rendering with >= 1 deviation."
 )
 ASSUMPTIONS = ["valid class = model G corpus + templates", "fixed-form '!' comment lines start in column 1 (a '!' in columns 2-5 is legal in both forms and carries no form information)"]
-BOUNDS = {"quick": dict(k=1, template_k=0, shards=4), "thorough": dict(k=2, template_k=1, shards=16, k2_only_templates=True)}
+BOUNDS = {"quick": dict(k=1, template_k=0, shards=4, focus_k=2), "thorough": dict(k=2, template_k=1, shards=16, k2_only_templates=True, focus_k=3)}
 
 
 def programs(tier):
@@ -49,6 +49,10 @@ def plan(tier, seed):
             small.append(i)
     for j in range(0, len(small), 8):
         tasks.append((tier, tuple(small[j : j + 8]), 0, 1))
+    fsh = 4 if tier == "quick" else 16
+    for i in range(len(layout.focus_programs())):
+        for s_ in range(fsh):
+            tasks.append((tier, ("focus", i), s_, fsh))
     return tasks
 
 
@@ -85,8 +89,15 @@ def run(task):
     res = Result()
     progs = _get(tier)
     k = BOUNDS[tier]["k"]
+    focus = idxs and idxs[0] == "focus"
+    if focus:
+        name, fprog, fonly = layout.focus_programs()[idxs[1]]
+        idxs = (0,)
     for i in idxs:
         pid, prog = progs[i]
+        fopts = None
+        if focus:
+            pid, prog, fopts = "F/" + name, fprog, {"only": fonly}
         std = G.prog_std(prog)
         free = layout.canonical_text(prog)
         o0 = try_parse(free, std)
@@ -110,9 +121,11 @@ def run(task):
                     res.violation(sig("detect", "free-seen-as-" + mode, ["indent%d" % ind]), "%s: free rendering with indent %d classified %r\n%s" % (pid, ind, mode, text), {"pid": pid, "tier": tier, "mode": "free", "indent": ind}, cost=len(text))
         # (2) fixed renderings
         kk = k if (pid.startswith("A/") or k == 1 or not BOUNDS[tier].get("k2_only_templates")) else 1
+        if focus:
+            kk = BOUNDS[tier]["focus_k"]
         stats = {}
         n = 0
-        for vec, ch, lay in explore.explore(lambda ch: layout.render_fixed(prog, ch), kk, stats):
+        for vec, ch, lay in explore.explore(lambda ch: layout.render_fixed(prog, ch, fopts), kk, stats):
             n += 1
             if n % nshards != shard:
                 continue
@@ -156,8 +169,13 @@ def judge_text(fixed, free, std, feats):
 def replay(case):
     if case.get("mode") == "text":
         return [{"sig": sig(l, k, case["features"]), "detail": d} for l, k, d in judge_text(case["fixed"], case["free"], case["std"], case["features"])]
-    progs = dict(_get(case["tier"]))
-    prog = progs[case["pid"]]
+    fopts = None
+    if case["pid"].startswith("F/"):
+        name, prog, fonly = [f for f in layout.focus_programs() if "F/" + f[0] == case["pid"]][0]
+        fopts = {"only": fonly}
+    else:
+        progs = dict(_get(case["tier"]))
+        prog = progs[case["pid"]]
     std = G.prog_std(prog)
     free = layout.canonical_text(prog)
     if case["mode"] == "free":
@@ -166,5 +184,5 @@ def replay(case):
         mode = FortranStringReader(text).format.mode
         return [] if mode == "free" else [{"sig": sig("detect", "free-seen-as-" + mode, ["indent%d" % ind]), "detail": text}]
     ref = canon(try_parse(free, std).tree)
-    ch, lay = explore.run(lambda ch: layout.render_fixed(prog, ch), case["vec"])
+    ch, lay = explore.run(lambda ch: layout.render_fixed(prog, ch, fopts), case["vec"])
     return [{"sig": sig(l, k, lay.features), "detail": d} for l, k, d in judge_fixed(lay, std, ref)]
